@@ -59,6 +59,10 @@ var c04Places = []struct {
 	{`<p>alpha</p><figure><img src="f.png"><figcaption>capt <a href="/l">link</a> %s ion</figcaption></figure>`, true},
 	{`<p>alpha</p><figure><img src="f.png">%s<figcaption>capt</figcaption></figure>`, true},
 	{`<table><tr><td>layout %s cell</td></tr></table>`, false},
+	{`<p>alpha</p><figure><img src="f.png"><figcaption><a href="/l">%s</a></figcaption></figure>`, true},
+	{`<p>alpha</p><figure><img src="f.png"><figcaption>%s</figcaption></figure>`, true},
+	{`<p>alpha</p><video src="v.mp4"><p>fallback</p>%s</video><p>beta</p>`, false},
+	{`<p>alpha</p><table><thead><tr><th>h1</th><th>h2</th></tr></thead><tbody><tr><td>%s</td><td>two</td></tr></tbody></table>`, true},
 }
 
 type c04Counter struct{}
